@@ -315,6 +315,21 @@ pub fn cases(thorough: bool) -> Vec<Case> {
         }
         cs.push(Case { before: 0, label: format!("trunc-mult100 (2^32+100m) x{}", n), probes: p });
     }
+    // staircases: every delta repeated r times, then stepped by s (a, a, b, b, c, c, ... with equal
+    // steps): exactly the repeats are stuck; a stuck test whose history goes stale on a stuck probe would
+    // also count the steps
+    for r in [2usize, 3, 5, 10, 11] {
+        for s in [4i64, 9, 33, 1000, -7] {
+            for start in [100usize, 37] {
+                let mut p = base.clone();
+                let x0: i64 = if s < 0 { 50_021 } else { 1_013 };
+                for j in 0..(400 - start) {
+                    p[start + j].d = x0 + s * (j / r) as i64;
+                }
+                cs.push(Case { before: 0, label: format!("staircase repeat {} step {} from probe {}", r, s, start), probes: p });
+            }
+        }
+    }
     for i in [0usize, 1, 99, 100, 101, 250, 398, 399] {
         for (kind, f) in [("time=0", 0), ("time2=0", 1), ("delta=0", 2), ("delta=2^32", 3), ("delta=-2^32", 4)] {
             let mut p = base.clone();
@@ -347,7 +362,7 @@ pub fn cases(thorough: bool) -> Vec<Case> {
     {
         let extra: Vec<Case> = cs
             .iter()
-            .filter(|c| c.label.starts_with("const-delta") || c.label.starts_with("a then 2a") || c.label.starts_with("mult100") || c.label.starts_with("wrap-tie") || c.label.starts_with("grid") || c.label == "healthy")
+            .filter(|c| c.label.starts_with("const-delta") || c.label.starts_with("a then 2a") || c.label.starts_with("mult100") || c.label.starts_with("wrap-tie") || c.label.starts_with("staircase") || c.label.starts_with("grid") || c.label == "healthy")
             .flat_map(|c| [1u8, 2].into_iter().map(move |b| Case { before: b, label: format!("{} [after {}]", c.label, if b == 1 { "a previous test_timer" } else { "a next_u64" }), probes: c.probes.clone() }))
             .collect();
         cs.extend(extra);
